@@ -1,2 +1,347 @@
+"""C04 deep rules.
+R4  constructor / accessor agreement: a node built by the real constructor from symbolic parameters is
+    asked back through the real accessor; the answer must be the parameter it was built from.
+    Predicates with optional arguments (is_constant, is_bv_constant ...) are decided against their
+    documented meaning for every combination of present/absent arguments over small domains.
+R8  per-environment state: no class-level mutable container of a per-environment class is mutated
+    in place through `self` (it would be shared by all environments)."""
+import ast
+import itertools
+
+from ..common import get_repo, parallel_map, method_loc, norm, short, stores_in, calls_in, attr_tail, is_self_attr
+from .. import proc, refsem
+from ..proc import S, BOOL, INT, REAL
+from .. import simpcheck as sc
+from ..absint import Interp, Explorer, Unsupported, AbsRaise, SymInt, SymBool, AObj, eval_term, term_of
+from ..world import World
+
+MUT_CALLS = {"append", "add", "update", "pop", "clear", "setdefault", "extend", "insert", "remove", "popitem", "discard"}
+
+
+def r8(ctx):
+    repo = get_repo()
+    rs = ctx.rule("R8", "per-environment state is held in instance attributes (no shared class-level containers)")
+    roots = ["pysmt.formula.FormulaManager", "pysmt.typing.TypeManager", "pysmt.environment.Environment",
+             "pysmt.walkers.generic.Walker", "pysmt.smtlib.parser.parser.SmtLibParser",
+             "pysmt.smtlib.parser.parser.SmtLibExecutionCache", "pysmt.smtlib.script.SmtLibScript",
+             "pysmt.solvers.solver.Solver", "pysmt.solvers.solver.Model", "pysmt.smtlib.annotations.Annotations"]
+    classes = set()
+    for r in roots:
+        if r in repo.classes:
+            classes |= set(repo.subclasses(r))
+    n = 0
+    for q in sorted(classes):
+        ci = repo.classes[q]
+        for name in ci.order:
+            kind, v = ci.attrs[name]
+            if kind != "expr":
+                continue
+            mutable = isinstance(v, (ast.Dict, ast.List, ast.Set, ast.ListComp, ast.DictComp, ast.SetComp)) or \
+                (isinstance(v, ast.Call) and attr_tail(v) in ("dict", "list", "set", "defaultdict", "OrderedDict", "deque"))
+            if not mutable:
+                continue
+            n += 1
+            # is it mutated in place through self / cls in this class or a subclass?
+            hits = []
+            for sq in repo.subclasses(q):
+                sci = repo.classes[sq]
+                rebinding = False
+                for mname in sci.order:
+                    f = sci.own_func(mname)
+                    if f is None:
+                        continue
+                    for t, st in stores_in(f):
+                        if is_self_attr(t, name) and mname == "__init__":
+                            rebinding = True
+                        if isinstance(t, ast.Subscript) and is_self_attr(t.value, name):
+                            hits.append((sq, mname, st))
+                    for c in calls_in(f):
+                        if isinstance(c.func, ast.Attribute) and c.func.attr in MUT_CALLS and is_self_attr(c.func.value, name):
+                            hits.append((sq, mname, c))
+                if rebinding:
+                    hits = [h for h in hits if h[0] != sq]
+            if hits:
+                sq, mname, st = hits[0]
+                ctx.finding(rs, "%s|class-level-container|%s" % (q, name),
+                            "%s.%s is a class-level %s and %s.%s mutates it in place (%s): one container is shared by "
+                            "every instance, i.e. by all environments - objects built in one environment leak into another"
+                            % (q.split(".")[-1], name, type(v).__name__.lower(), sq.split(".")[-1], mname, short(st)),
+                            method_loc(repo, sq, st))
+            else:
+                rs.ok({"class": q.split(".")[-1], "attribute": name, "mutated_in_place": False})
+    # instance containers are created in __init__
+    for q, attrs in (("pysmt.formula.FormulaManager", ["formulae", "symbols", "int_constants", "real_constants", "string_constants"]),
+                     ("pysmt.walkers.dag.DagWalker", ["memoization", "stack"])):
+        init = repo.classes[q].own_func("__init__")
+        for a in attrs:
+            if any(is_self_attr(t, a) for t, _ in stores_in(init)):
+                rs.ok({"class": q.split(".")[-1], "attribute": a, "created_in": "__init__"})
+            else:
+                ctx.finding(rs, "%s|not-instance-state|%s" % (q, a),
+                            "%s.%s is not created per instance in __init__" % (q.split(".")[-1], a),
+                            method_loc(repo, q, init))
+    ctx.floor(rs, 7)
+
+
+# ------------------------------------------------------------------------------------ R4
+def _run(fn, max_paths=200):
+    def one(ex):
+        it = Interp(ex)
+        w = proc.setup_env(World().attach(it))
+        return fn(w, it)
+    return Explorer(max_paths=max_paths).run(one)
+
+
+def _check_pred(name, build, expect, doms, width_vars=("W",)):
+    """build(w, it) -> value ; expect(asg) -> expected python value; doms: var -> list (may depend on W)"""
+    try:
+        paths = _run(build)
+    except Unsupported as e:
+        return (name, "unsupported", str(e))
+    names = sorted(doms)
+    n_ok = 0
+    for combo in itertools.product(*[doms[k] for k in names]):
+        asg = dict(zip(names, combo))
+        for p in paths:
+            try:
+                if not sc.facts_hold(p.facts(), asg):
+                    continue
+            except KeyError:
+                continue
+            if p.kind == "unsupported":
+                return (name, "unsupported", str(p.value))
+            try:
+                exp = expect(asg)
+            except Exception as e:
+                exp = ("raise",)
+            if p.kind == "raise":
+                got = ("raise",)
+            else:
+                got = p.value
+                if isinstance(got, (SymInt, SymBool)):
+                    got = eval_term(got.t, asg)
+                elif isinstance(got, tuple):
+                    got = tuple(eval_term(g.t, asg) if isinstance(g, (SymInt, SymBool)) else g for g in got)
+            if exp == ("skip",):
+                break
+            if got != exp and not (isinstance(exp, bool) and isinstance(got, bool) is False and got == exp):
+                return (name, "invalid", "with %s the answer is %r, by definition %r" % (asg, got, exp))
+            n_ok += 1
+            break
+    return (name, "valid", "%d argument/value combinations" % n_ok)
+
+
+def _accessor_jobs():
+    jobs = []
+    W3 = [1, 2, 3]
+
+    def bvdom():
+        return {"W": W3, "c": [0, 1, 2, 5], "v": [0, 1, 2, 5], "w": [1, 2, 3]}
+    # is_bv_constant(value, width)
+    for hv, hw in itertools.product([False, True], repeat=2):
+        def build(w, it, hv=hv, hw=hw):
+            n = w.bv_const(w.var("c", "bv"), w.var("W", "width"))
+            return it.call(it.getattr(n, "is_bv_constant"), [], dict(([("value", w.var("v", "int"))] if hv else []) +
+                                                                    ([("width", w.var("w", "int"))] if hw else [])))
+        jobs.append(("is_bv_constant(%s%s) on a BV constant" % ("value" if hv else "", ", width" if hw else ""), build,
+                     (lambda hv, hw: lambda a: ((not hv) or a["c"] == a["v"]) and ((not hw) or a["W"] == a["w"]))(hv, hw), bvdom()))
+
+    def b2(w, it):
+        return it.call(it.getattr(w.symbol("x", ("BV", w.var("W", "width"))), "is_bv_constant"), [w.var("v", "int")])
+    jobs.append(("is_bv_constant(value) on a symbol", b2, lambda a: False, {"W": W3, "v": [0, 1]}))
+    # is_int_constant / is_real_constant / is_bool_constant(value)
+    for kind, mk, meth in (("Int", lambda w: w.int_const(w.var("c", "int")), "is_int_constant"),
+                           ("Real", lambda w: w.real_const(w.var("c", "real")), "is_real_constant")):
+        for hv in (False, True):
+            def build(w, it, mk=mk, meth=meth, hv=hv):
+                return it.call(it.getattr(mk(w), meth), [w.var("v", "int")] if hv else [])
+            jobs.append(("%s(%s) on a %s constant" % (meth, "value" if hv else "", kind), build,
+                         (lambda hv: lambda a: (not hv) or a["c"] == a["v"])(hv), {"c": [-1, 0, 1, 2], "v": [-1, 0, 1, 2]}))
+        for other, mk2 in (("Int", lambda w: w.int_const(3)), ("Real", lambda w: w.real_const(3)), ("Bool", lambda w: w.bool_const(True)),
+                           ("BV", lambda w: w.bv_const(1, 2)), ("symbol", lambda w: w.symbol("x", INT))):
+            if other == kind:
+                continue
+            def build(w, it, mk2=mk2, meth=meth):
+                return it.call(it.getattr(mk2(w), meth), [])
+            jobs.append(("%s() on a %s" % (meth, other), build, lambda a: False, {"_": [0]}))
+    for val in (True, False):
+        for q in (None, True, False):
+            def build(w, it, val=val, q=q):
+                return it.call(it.getattr(w.bool_const(val), "is_bool_constant"), [] if q is None else [q])
+            jobs.append(("is_bool_constant(%s) on %s" % (q, val), build, (lambda val, q: lambda a: q is None or q == val)(val, q), {"_": [0]}))
+    for meth, exp in (("is_true", lambda v: v is True), ("is_false", lambda v: v is False)):
+        for val in (True, False):
+            def build(w, it, val=val, meth=meth):
+                return it.call(it.getattr(w.bool_const(val), meth), [])
+            jobs.append(("%s() on %s" % (meth, val), build, (lambda val, exp: lambda a: exp(val))(val, exp), {"_": [0]}))
+    for meth, target in (("is_zero", 0), ("is_one", 1)):
+        for kind, mk in (("Int", lambda w: w.int_const(w.var("c", "int"))), ("Real", lambda w: w.real_const(w.var("c", "real")))):
+            def build(w, it, mk=mk, meth=meth):
+                return it.call(it.getattr(mk(w), meth), [])
+            jobs.append(("%s() on a %s constant" % (meth, kind), build, (lambda t: lambda a: a["c"] == t)(target), {"c": [-1, 0, 1, 2]}))
+        def build(w, it, meth=meth):
+            return it.call(it.getattr(w.bv_const(w.var("c", "bv"), 2), meth), [])
+        jobs.append(("%s() on a BV constant" % meth, build, lambda a: False, {"c": [0, 1, 2]}))
+    # is_constant(_type, value)
+    for tname, tsort in (("INT", INT), ("REAL", REAL), ("BOOL", BOOL), ("BV(w)", ("BV", "w"))):
+        for nk, mk, nsort in (("Int", lambda w: w.int_const(w.var("c", "int")), INT), ("Real", lambda w: w.real_const(w.var("c", "real")), REAL),
+                              ("BV", lambda w: w.bv_const(w.var("c", "bv"), w.var("W", "width")), ("BV", "W"))):
+            def build(w, it, mk=mk, tsort=tsort):
+                t = w.tyobj(sc._sort(w, tsort) if tsort[0] != "BV" else ("BV", w.var("w", "width")))
+                return it.call(it.getattr(mk(w), "is_constant"), [t, w.var("v", "int")])
+
+            def expect(a, tsort=tsort, nsort=nsort):
+                if tsort[0] != nsort[0]:
+                    return False
+                if tsort[0] == "BV" and a["W"] != a["w"]:
+                    return False
+                return a["c"] == a["v"]
+            jobs.append(("is_constant(%s, value) on a %s constant" % (tname, nk), build, expect,
+                         {"c": [0, 1, 2], "v": [0, 1, 2], "W": [1, 2], "w": [1, 2]}))
+    # BV value accessors
+    def bu(w, it):
+        return it.call(it.getattr(w.bv_const(w.var("c", "bv"), w.var("W", "width")), "bv_unsigned_value"), [])
+    jobs.append(("bv_unsigned_value()", bu, lambda a: a["c"] if a["c"] < (1 << a["W"]) else ("skip",), {"W": W3, "c": list(range(8))}))
+    def bs(w, it):
+        return it.call(it.getattr(w.bv_const(w.var("c", "bv"), w.var("W", "width")), "bv_signed_value"), [])
+    jobs.append(("bv_signed_value()", bs, lambda a: refsem.to_signed(a["c"], a["W"]) if a["c"] < (1 << a["W"]) else ("skip",),
+                 {"W": W3, "c": list(range(8))}))
+    def b2n(w, it):
+        return it.call(it.getattr(w.bv_const(w.var("c", "bv"), w.var("W", "width")), "bv2nat"), [])
+    jobs.append(("bv2nat()", b2n, lambda a: a["c"] if a["c"] < (1 << a["W"]) else ("skip",), {"W": W3, "c": list(range(8))}))
+    # constructor parameters read back
+    def ex_start(w, it):
+        x = w.symbol("x", ("BV", 8))
+        n = w.app("BVExtract", x, start=w.var("s", "idx"), end=w.var("e", "idx"))
+        return (it.call(it.getattr(n, "bv_extract_start"), []), it.call(it.getattr(n, "bv_extract_end"), []),
+                it.call(it.getattr(n, "bv_width"), []))
+    jobs.append(("BVExtract(x, s, e): bv_extract_start / bv_extract_end / bv_width", ex_start,
+                 lambda a: (a["s"], a["e"], a["e"] - a["s"] + 1) if 0 <= a["s"] <= a["e"] < 8 else ("raise",),
+                 {"s": list(range(0, 8)), "e": list(range(0, 8))}))
+    for ctor in ("BVRol", "BVRor"):
+        def rot(w, it, ctor=ctor):
+            n = w.app(ctor, w.symbol("x", ("BV", w.var("W", "width"))), w.var("k", "idx"))
+            return (it.call(it.getattr(n, "bv_rotation_step"), []), it.call(it.getattr(n, "bv_width"), []))
+        jobs.append(("%s(x, k): bv_rotation_step / bv_width" % ctor, rot, lambda a: (a["k"], a["W"]), {"W": W3, "k": [0, 1, 2, 3]}))
+    for ctor in ("BVZExt", "BVSExt"):
+        def ext(w, it, ctor=ctor):
+            n = w.app(ctor, w.symbol("x", ("BV", w.var("W", "width"))), w.var("k", "idx"))
+            return (it.call(it.getattr(n, "bv_extend_step"), []), it.call(it.getattr(n, "bv_width"), []))
+        jobs.append(("%s(x, k): bv_extend_step / bv_width" % ctor, ext, lambda a: (a["k"], a["W"] + a["k"]), {"W": W3, "k": [0, 1, 2, 3]}))
+    for ctor in ("BVAnd", "BVAdd", "BVUDiv", "BVLShl", "BVXor", "BVSub"):
+        def wd(w, it, ctor=ctor):
+            W = w.var("W", "width")
+            n = w.app(ctor, w.symbol("x", ("BV", W)), w.symbol("y", ("BV", W)))
+            return it.call(it.getattr(n, "bv_width"), [])
+        jobs.append(("%s(x, y).bv_width()" % ctor, wd, lambda a: a["W"], {"W": W3}))
+    def cc(w, it):
+        n = w.app("BVConcat", w.symbol("x", ("BV", w.var("W", "width"))), w.symbol("y", ("BV", w.var("V", "width"))))
+        return it.call(it.getattr(n, "bv_width"), [])
+    jobs.append(("BVConcat(x, y).bv_width()", cc, lambda a: a["W"] + a["V"], {"W": W3, "V": W3}))
+    def itew(w, it):
+        W = w.var("W", "width")
+        n = w.app("Ite", w.symbol("p", BOOL), w.app("Ite", w.symbol("q", BOOL), w.symbol("x", ("BV", W)), w.symbol("y", ("BV", W))),
+                  w.symbol("z", ("BV", W)))
+        return it.call(it.getattr(n, "bv_width"), [])
+    jobs.append(("Ite(p, Ite(q, x, y), z).bv_width()", itew, lambda a: a["W"], {"W": W3}))
+    def symw(w, it):
+        return it.call(it.getattr(w.symbol("x", ("BV", w.var("W", "width"))), "bv_width"), [])
+    jobs.append(("Symbol(x, BV W).bv_width()", symw, lambda a: a["W"], {"W": W3}))
+    return jobs
+
+
+JOBS = None
+
+
+def _acc_job(i):
+    name, build, expect, doms = JOBS[i]
+    return _check_pred(name, build, expect, doms)
+
+
+def _struct_job(_):
+    """symbol / quantifier / function / array accessors: structural read-back (identity of objects)."""
+    out = []
+
+    def run1(name, fn):
+        for p in _run(fn):
+            if p.kind == "return":
+                okk, detail = p.value
+                out.append((name, "valid" if okk else "invalid", detail))
+            elif p.kind == "raise":
+                out.append((name, "invalid", "raises %s" % p.value.cls_name))
+            else:
+                out.append((name, "unsupported", str(p.value)))
+
+    def sym(w, it):
+        t = w.tyobj(INT)
+        n = w.app("Symbol", "x", t)
+        return (it.call(it.getattr(n, "symbol_name"), []) == "x" and it.call(it.getattr(n, "symbol_type"), []) is t,
+                "symbol_name / symbol_type")
+    run1("Symbol(name, type): symbol_name / symbol_type", sym)
+
+    def quant(w, it):
+        a, b = w.symbol("a", BOOL), w.symbol("b", BOOL)
+        body = w.app("Or", a, b)
+        n = w.app("ForAll", [a, b], body)
+        qv = it.call(it.getattr(n, "quantifier_vars"), [])
+        return (tuple(qv) == (a, b) and it.call(it.getattr(n, "arg"), [0]) is body and w.opname(n) == "FORALL",
+                "quantifier_vars %s" % [sc.node_str(w, x) for x in qv])
+    run1("ForAll(vars, body): quantifier_vars / arg(0)", quant)
+
+    def fun(w, it):
+        f = w.symbol("f", ("FUN", INT, (INT, INT)))
+        x, y = w.symbol("x", INT), w.symbol("y", INT)
+        n = w.app("Function", f, [x, y])
+        return (it.call(it.getattr(n, "function_name"), []) is f and tuple(it.call(it.getattr(n, "args"), [])) == (x, y),
+                "function_name / args")
+    run1("Function(f, [x, y]): function_name / args", fun)
+
+    def arr(w, it):
+        t = w.tyobj(INT)
+        d = w.int_const(0)
+        k1, k2 = w.int_const(1), w.int_const(2)
+        v1, v2 = w.int_const(10), w.int_const(20)
+        n = w.app("Array", t, d, {k1: v1, k2: v2, w.int_const(3): d})
+        m = it.call(it.getattr(n, "array_value_assigned_values_map"), [])
+        okk = (it.call(it.getattr(n, "array_value_index_type"), []) is t and it.call(it.getattr(n, "array_value_default"), []) is d
+               and len(m) == 2 and m.get(k1) is v1 and m.get(k2) is v2
+               and it.call(it.getattr(n, "array_value_get"), [k1]) is v1 and it.call(it.getattr(n, "array_value_get"), [k2]) is v2
+               and it.call(it.getattr(n, "array_value_get"), [w.int_const(7)]) is d)
+        return (okk, "index type, default, assignments (entries equal to the default dropped), array_value_get")
+    run1("Array(idx, default, assignments): accessors", arr)
+
+    def nt(w, it):
+        x, y = w.symbol("x", INT), w.symbol("y", INT)
+        n = w.app("Minus", x, y)
+        return (tuple(it.call(it.getattr(n, "args"), [])) == (x, y) and it.call(it.getattr(n, "arg"), [1]) is y
+                and it.call(it.getattr(n, "is_minus"), []) is True and it.call(it.getattr(n, "is_plus"), []) is False, "args / arg / is_minus")
+    run1("Minus(x, y): args / arg(i) / is_minus", nt)
+
+    def hc(w, it):
+        x, y = w.symbol("x", INT), w.symbol("y", INT)
+        a = w.app("Plus", x, y)
+        b = w.app("Plus", [x, y])
+        c = w.app("Plus", y, x)
+        return (a is b and a is not c, "Plus(x,y) is Plus([x,y]) and differs from Plus(y,x)")
+    run1("hash-consing: same structure, one object", hc)
+    return out
+
+
 def run(ctx):
-    pass
+    global JOBS
+    if ctx.want("R8"):
+        r8(ctx)
+    if not ctx.want("R4"):
+        return
+    rs = ctx.rule("R4", "constructor / accessor agreement and predicate meaning (interpreted, small domains)")
+    JOBS = _accessor_jobs()
+    outs = parallel_map(_acc_job, list(range(len(JOBS))))
+    outs += _struct_job(None)
+    for name, kind, detail in outs:
+        if kind == "valid":
+            rs.ok({"accessor": name, "checked": detail})
+        elif kind == "invalid":
+            ctx.finding(rs, "%s|unfaithful" % name, "%s: %s" % (name, detail), "pysmt/fnode.py")
+        else:
+            rs.unrec("%s: %s" % (name, detail[:120]))
+    ctx.floor(rs, 60)
